@@ -101,7 +101,8 @@ def run_all(ctx, binp, corr_broken, scale=1, search=False):
     plans = [
         ("TestVerifNumCorr", "num", ctx.budget(8000, 40000) * scale, {"VERIF_CORPUS": corpus}, "NUM-HIST"),
         ("TestVerifMsToDurationCorr", "ms", ctx.budget(1000, 10000) * scale, {}, None),
-        ("TestVerifPQCorr", "pq", ctx.budget(60000, 400000) * scale, {}, "PQ-HIST"),
+        ("TestVerifPQCorr", "pq", ctx.budget(60000, 400000) * scale,
+         {"VERIF_CORPUS": ":".join(e1util.corpus_files("C04", lambda f: "pq" in os.path.basename(f)))}, "PQ-HIST"),
         ("TestVerifChanCorr", "chan", ctx.budget(12000, 100000) * scale, {}, "CHAN-HIST"),
         ("TestVerifUniqCorr", "uniq", ctx.budget(6000, 40000) * scale, {}, None),
     ]
@@ -120,16 +121,21 @@ def run_all(ctx, binp, corr_broken, scale=1, search=False):
                 ctx.violation(oracle_key(stream, l), l, "harness %s seed %s\n%s\n" % (test, ctx.seed, l))
         model = e1util.model_of(ctx, stream)
         ncorpus = 0
+        nedge = 0  # corpus files come in corpus_files() order: plain *.ops first, then fixed/*.ops
+        for f in corpus.split(":"):
+            if f and os.sep + "fixed" + os.sep not in f and stream == "num":
+                nedge += sum(1 for l in open(f) if l.strip() and not l.startswith("#"))
         m = re.search(r"NUM-CORPUS lines=(\d+)", out)
         if m:
             ncorpus = int(m.group(1))
-            ctx.corr["fixed_findings_replayed"] = {"file": "corpus/C04/fixed/numeric_overflow.ops", "lines": ncorpus}
+            ctx.corr["corpus_replayed"] = {"files": corpus.split(":"), "lines": ncorpus,
+                                           "fixed_finding": "corpus/C04/fixed/numeric_overflow.ops"}
         for k, (o, i) in enumerate(zip(ops, impl)):
             ctx.count_case(o, nontrivial=i not in ("err", "parse", "invalid", "nil", "panic", "-"))
             if stream in ("num", "ms"):
                 bad = num_oracle(o, i)
                 if bad:
-                    key = "numeric-overflow" if k < ncorpus else "num:" + norm_num_key(o, i)
+                    key = "numeric-overflow" if k >= nedge and k < ncorpus else "num:" + norm_num_key(o, i)
                     ctx.violation(key, bad, "op: %s\nimpl: %s\n(replay: put the op line in a file and run "
                                   "TestVerifNumCorr with VERIF_CORPUS=<file>)\n" % (o, i))
             elif stream == "pq":
